@@ -716,3 +716,59 @@ def header_line(res):
 def real_headers(res):
     """per file: the header lines after the host-name and argument-echo lines, in the model's canonical form"""
     return {n: "\\n".join(l.replace("\t", "|") for l in h[2:]) for n, h in res.get("headers", {}).items()}
+
+
+# ---------------------------------------------------------------- the alignment-comparison program end to end (C19)
+def run_compare_cli(xmap_a, xmap_b, rpath, qpath, out_path, include_positions=False):
+    """the real `src.compare_alignments` program on two XMAP files; difflib's matched sizes are recorded by a wrapper
+    (no source change). Returns (output text, matcher records [(a_pairs, b_pairs, M)], error class name or None)"""
+    import src.compare_alignments as cli
+    import src.diagnostic.alignment_comparer as ac
+    from difflib import SequenceMatcher
+    rec = []
+
+    class Rec(SequenceMatcher):
+        def ratio(self):
+            m = sum(t[-1] for t in self.get_matching_blocks())
+            rec.append((list(self.a), list(self.b), m))
+            return super().ratio()
+    old = ac.SequenceMatcher
+    ac.SequenceMatcher = Rec
+    err = None
+    args = None
+    try:
+        argv = [xmap_a, xmap_b, "-r", rpath, "-q", qpath, "-o", out_path] + (["-d"] if include_positions else [])
+        args = cli.Args.parse(argv)
+        cli.Program(args).run()
+    except Exception as e:  # noqa
+        err = type(e).__name__
+    finally:
+        ac.SequenceMatcher = old
+        if args is not None:
+            for f in list(args.alignmentFiles) + [args.referenceFile, args.queryFile, args.outputFile]:
+                try:
+                    f.close()
+                except Exception:
+                    pass
+    text = open(out_path).read() if os.path.exists(out_path) else ""
+    return text, rec, err
+
+
+def parse_compare_output(text):
+    """independent parser of the comparison file: ({counter: value}, [row dicts])"""
+    import re
+    cnt, rows = {}, []
+    for line in text.split("\n"):
+        if line.startswith("# ") and "\t" in line and not line.startswith("#\t"):
+            k, v = line[2:].split("\t", 1)
+            cnt[k] = v
+        elif line and not line.startswith("#"):
+            f = line.split("\t")
+            def pairs(s):
+                two = [(int(a), int(b)) for a, b in re.findall(r"\((\d+), (\d+)\)", s)]
+                # with -d every pair is written as (referenceID, referencePosition, queryID, position, distance)
+                five = [(int(a), int(c)) for a, b, c, d, e in re.findall(r"\((\d+), (-?\d+), (\d+), (-?\d+), (-?\d+)\)", s)]
+                return sorted(two + five)
+            rows.append({"q": int(f[1]), "r": int(f[2]), "type": f[3], "ident": float(f[4]), "cov1": float(f[5]), "cov2": float(f[6]),
+                         "orient": f[7], "diff1": pairs(f[8]), "diff2": pairs(f[9]), "al1": pairs(f[10]), "al2": pairs(f[11])})
+    return cnt, rows
